@@ -323,7 +323,7 @@ Proof.
   - rewrite IHl, IHr. reflexivity.
 Qed.
 
-Lemma with_uu_r body u : with_uu (r_tx body) (p u) = r_tx (with_uu body u).
+Lemma with_uu_r body u : with_uu (r_tx body) (pc u) = r_tx (with_uu body u).
 Proof. reflexivity. Qed.
 
 Definition r_acc (a : acc) : acc :=
@@ -346,7 +346,7 @@ Lemma add_cte_r d a c :
   add_cte (rd d) (r_acc a) (r_cte c) = r_acc (add_cte d a c).
 Proof.
   unfold add_cte. cbn [a_map a_names a_j a_out a_nctr r_acc c_name c_body c_br c_sq c_cols r_cte].
-  rewrite subst_name_r, subst_r. rewrite mem_tx_map. rewrite rd_uu, rd_ct.
+  rewrite subst_name_r, subst_r. rewrite mem_tx_map. rewrite !rd_ct.
   destruct (mem_tx (subst_name (a_map a) (c_name c)) (a_names a)).
   - rewrite first_ctr_r.
     destruct (first_ctr (subst (a_map a) (c_body c))) as [o|]; cbn [option_map].
